@@ -9,6 +9,7 @@ EXPLANATION = (
     "deposit(c, c) with a non-zero constant c; with the pool present nothing is overwritten. R3 no deletion: no SmtMapping::delete/clear on a pool mapping and every "
     "value inserted into a pool mapping has passed through deposit/swap_many/withdraw (never a bare new_empty()). R4 issuance/burn provenance: liquidity coins are "
     "multiply_frac(result of PoolState::deposit, share) and withdrawals burn exactly Σ of the liquidity coins consumed (shared with C15.R3d/R3w)."
+    " R2 `preemptible`: a pool that becomes a built-in only under a TIP flag must receive unowned liquidity even when it already exists (recorded finding D19 for ERG/SYM). R5 tokens-only-from-deposits: a transaction kind that is exempt from the per-denomination balance check must not be free to name a Custom denomination in its outputs (recorded finding D21: Faucet). Imports C15.R6 (each pool processed once per block) and the activation table C06.R5."
 )
 NOT_DECIDED = ["non-zero reserves after arbitrary swap sequences and 'tokens in coins ≤ recorded liquidity' over histories (PoolState arithmetic in the trusted base; sums over histories)"]
 ASSUMPTIONS = ["PoolState::deposit(c, c) on an empty pool yields reserves (c, c) and c liquidity (melstructs 0.3.3)"]
